@@ -246,7 +246,7 @@ def evalFilters (fs : List Filter) (req : Request) : Bool := fs.all (evalFilter 
     is taken to allow (the external authorizer's answer is outside the statement). -/
 def evalG : GFilter → Request → Bool
   | .rbac f, r => evalFilter f r
-  | .extAuthz _ _ _, _ => true
+  | .extAuthz _ _ _ _, _ => true
 
 def evalGs (fs : List GFilter) (req : Request) : Bool := fs.all (evalG · req)
 
@@ -279,7 +279,16 @@ def extAuthzEnabled : List GFilter → Option Str → Request → List Str
   | .rbac f :: rest, cur, req =>
     extAuthzEnabled rest
       (if f.shadowPrefix == extAuthzShadowPrefix then (shadowWrite f req).orElse (fun _ => cur) else cur) req
-  | .extAuthz _ _ pfx :: rest, cur, req =>
+  | .extAuthz _ _ pfx _ :: rest, cur, req =>
     (if cur.any (hasPrefix pfx) then [pfx] else []) ++ extAuthzEnabled rest cur req
+
+/-- The same walk, returning WHERE the check requests go: the targets of the consulted filters. -/
+def extAuthzTargets : List GFilter → Option Str → Request → List ExtTarget
+  | [], _, _ => []
+  | .rbac f :: rest, cur, req =>
+    extAuthzTargets rest
+      (if f.shadowPrefix == extAuthzShadowPrefix then (shadowWrite f req).orElse (fun _ => cur) else cur) req
+  | .extAuthz _ _ pfx t :: rest, cur, req =>
+    (if cur.any (hasPrefix pfx) then [t] else []) ++ extAuthzTargets rest cur req
 
 end IstioModel.C08
